@@ -572,17 +572,19 @@ class C06(Prop):
     pid = "C06"
     manifest = dict(
         technique="Lean 4: the BNF lark derives from cel.lark (regenerated every run, bridged by decide) with a generic derivation "
-                  "relation; theorem render_derives (induction over all expressions, level-generalised): every expression whose "
-                  "parentheses respect CEL's level table derives exactly the intended tree; fullParen_wf / "
-                  "same_tree_as_parenthesised; DumpAST mirrored as a stack machine with dump_exact / dump_roundtrip_partial; "
-                  "checked executable parser (parse_sound); lexer word classification (literals_not_idents) over lark's LALR "
-                  "accept sets; correspondence lark tree vs toTree, tree_dump vs dump; oracle with its own level table",
-        text="proof: for ALL expressions (any depth, any argument counts) the token string of a well-parenthesised expression derives "
-             "the tree CEL's precedence/associativity table prescribes, the fully parenthesised form has the same tree modulo "
-             "parenthesis nodes, and DumpAST's output re-derives the same tree unless the expression contains an empty list literal "
-             "(known finding); grammar, Lark options and the true/false callback are regenerated from the source on every run",
-        note="Lean kernel; standard axioms; lark's lexer and the LALR(1) uniqueness meta-theorem are trusted and exercised by the "
-             "correspondence (lark tree = model tree on every generated input, zero shift/reduce resolutions)",
+                  "relation that also builds lark's tree; render_derives (mutual induction over all expressions, level-generalised): "
+                  "every expression whose parentheses respect CEL's level table derives exactly the intended tree; derivable_is_render "
+                  "(recursion over all derivations, 88 productions): every sentence / tree of the grammar arises that way; fullParen_wf, "
+                  "same_tree_as_parenthesised, every_parse_tree; DumpAST mirrored as a stack machine (dump_exact, "
+                  "dump_roundtrip_partial); checked executable parser (parse_sound); lexer word classification over lark's LALR accept "
+                  "sets (literals_not_idents); correspondence lark tree vs toTree, tree_dump vs dump; oracle with its own level table",
+        text="proof: for ALL expressions (any depth, any argument counts) and for EVERY tree derivable from the grammar: the token string "
+             "of a well-parenthesised expression derives the tree CEL's precedence/associativity table prescribes, the fully "
+             "parenthesised form has the same tree modulo parenthesis nodes, and DumpAST's output re-derives the same tree unless "
+             "the expression contains an empty list literal (known finding D13, pinned by tests); grammar, Lark options, %ignore "
+             "patterns and the true/false callback are regenerated from the source on every run",
+        note="Lean kernel; standard axioms; lark's lexer (text <-> tokens) and the LALR(1) uniqueness meta-theorem are trusted and "
+             "exercised by the correspondence (lark tree = model tree on every generated input, zero shift/reduce resolutions)",
         ref="DESIGN.md §5 C06")
     lean_targets = ["Cel.Props.C06", "Cel.Bridge.Grammar"]
     audit_namespaces = ["Cel.Props.C06", "Cel.Bridge"]
